@@ -435,6 +435,15 @@ class Interp(ExprMixin, CallMixin):
             if isinstance(a, Sym) and a.op == 'len' and isinstance(b, int):
                 if (value and op in ('>', '>=') and b >= (0 if op == '>' else 1)) or (not value and op in ('<', '==') and b <= 1 and (op != '==' or b == 0)):
                     fr.nonempty.add(_show(a.args[0]))
+                # len(x) > k / len(x) >= k (or the negation of < / <=): the indices below that bound exist
+                bound = None
+                if value and op in ('>', '>='):
+                    bound = b + 1 if op == '>' else b
+                elif not value and op in ('<', '<='):
+                    bound = b if op == '<' else b + 1
+                if bound is not None:
+                    for i in range(0, min(bound, 16)):
+                        fr.nonempty.add('#index %d of %s' % (i, _show(a.args[0])))
 
     def key_snapshot(self):
         return {id(p): (p, dict(p.keys)) for p in self.parsers}
